@@ -9,6 +9,7 @@
 Require Import D42.Prelude D42.PyFloat D42.Value D42.Regex D42.Schema D42.Validate D42.Conforms
                D42.CaseLib D42.Declare.
 Require Import D42P.DeclareSpec D42P.DeclareInv.
+Require Import D42.DslWf D42P.DslWf D42P.ValidateSpec.
 
 (* Whatever the arguments are (any type, any number of wrongly typed ones), a call of a
    method the type has, with a number of arguments Python accepts, never lets an exception
@@ -109,3 +110,52 @@ Example ex_wrong_types :
   decl MCall (bare KdDict) [ADict [(DKey KEll, ASchema SNone)]] = Err DeclErr /\
   arity_ok KdStr MLen [AVal VEllipsis; AVal VNil] = true.
 Proof. vm_compute. repeat split; reflexivity. Qed.
+
+(* ---- DSL-built schemas are well-formed ---- *)
+Close Scope N_scope.
+(* Every schema obtained from a bare type by any chain of successful DSL calls whose schema
+   arguments were themselves DSL-built ([args_inv], exactly the hypothesis of run_dsl_inv) is
+   well-formed.  This discharges the hypothesis [wf s = true] of the theorems of
+   C02/C04/C05/C08/C12 for every schema built through the DSL.  The one side condition,
+   [pats_modelled s] (theories/DslWf.v), is the regex clause of [wf]: every regex the schema
+   carries, at any depth, is in the modelled fragment [re_modelled] of C09; [dsl_inv] says
+   nothing about it (regex() accepts whatever re.compile accepts).  Every other clause of
+   [wf] (`...` only first/last and not [..., ...]; shape of dict entries; distinct keys;
+   hereditarily) follows from [dsl_inv]. *)
+Theorem dsl_built_wf :
+  forall k ops s,
+  Forall (fun o : op => args_inv (snd o) = true) ops ->
+  run ops (bare k) = Ok s -> pats_modelled s = true -> wf s = true.
+Proof. exact run_wf_lemma. Qed.
+Print Assumptions dsl_built_wf.
+
+Theorem dsl_inv_wf : forall s, dsl_inv s = true -> pats_modelled s = true -> wf s = true.
+Proof. exact dsl_inv_wf_lemma. Qed.
+Print Assumptions dsl_inv_wf.
+
+(* non-vacuity, and the intended use: schema.list([..., schema.str.regex("an+a")]).len(1, 3)
+   is built by the DSL from DSL-built arguments, so C02's verdict_iff_conforms (here its
+   lemma, proofs/ValidateSpec.v) applies to it without any well-formedness side proof. *)
+Open Scope N_scope.
+Definition ex_built_ops : list op :=
+  [(MCall, [AList [AVal VEllipsis;
+                   ASchema (SStr None None None None None None (Some ([97;110;43;97], ex_anna)))]]);
+   (MLen, [AVal (VInt 1%Z); AVal (VInt 3%Z)])].
+Definition ex_built : schema :=
+  SList (Some [None; Some (SStr None None None None None None (Some ([97;110;43;97], ex_anna)))])
+        None None (Some (IInt 1%Z)) (Some (IInt 3%Z)).
+Example ex_built_arg :
+  run [(MRegex, [APattern [97;110;43;97] ex_anna true])] (bare KdStr)
+  = Ok (SStr None None None None None None (Some ([97;110;43;97], ex_anna))).
+Proof. vm_compute. reflexivity. Qed.
+Example ex_built_run : run ex_built_ops (bare KdList) = Ok ex_built.
+Proof. vm_compute. reflexivity. Qed.
+Example ex_built_verdict : forall v, verdict ex_built v = true <-> conforms ex_built v.
+Proof.
+  apply verdict_iff_conforms_lemma.
+  apply (dsl_built_wf KdList ex_built_ops ex_built).
+  - repeat constructor.
+  - exact ex_built_run.
+  - vm_compute. reflexivity.
+Qed.
+Close Scope N_scope.
